@@ -72,6 +72,15 @@ func init() {
 		Variant{ID: "c09-r5-bit-msb", Prop: "C09", File: "replication/binlog_event.go",
 			Old: "func (b *Bitmap) Bit(index int) bool {\n\tbyteIndex := index / 8\n\tbitMask := byte(1 << (uint(index) & 0x7))", New: "func (b *Bitmap) Bit(index int) bool {\n\tbyteIndex := index / 8\n\tbitMask := byte(0x80 >> (uint(index) & 0x7))",
 			Expect: "C09-R5"},
+		Variant{ID: "c09-r5-set-swapped", Prop: "C09", File: "replication/binlog_event.go",
+			Old: "\tif value {\n\t\tb.data[byteIndex] |= bitMask\n\t} else {", New: "\tif !value {\n\t\tb.data[byteIndex] |= bitMask\n\t} else {",
+			Expect: "C09-R5 store@Set"},
+		Variant{ID: "c09-r5-set-wrong-byte", Prop: "C09", File: "replication/binlog_event.go",
+			Old: "func (b *Bitmap) Set(index int, value bool) {\n\tbyteIndex := index / 8", New: "func (b *Bitmap) Set(index int, value bool) {\n\tbyteIndex := (index + 7) / 8",
+			Expect: "C09-R5 store@Set"},
+		Variant{ID: "c09-r5-bitcount-inclusive", Prop: "C09", File: "replication/binlog_event.go",
+			Old: "\tfor i := 0; i < b.count; i++ {\n\t\tif b.Bit(i) {", New: "\tfor i := 0; i < len(b.data)*8; i++ {\n\t\tif b.Bit(i) {",
+			Expect: "C09-R5 count@BitCount"},
 	)
 }
 
@@ -494,6 +503,56 @@ func c09R5(a *A) {
 		adv := t.term(ret.Results[1]).String()
 		a.check(adv == "(/ count+7 8)+pos", rule, "advance@newBitmap", w.posOf(ret), "next position = pos + (count+7)/8", "newBitmap advances the position by "+adv)
 	}
+	// Bit: "data[index/8] & (1<<(index&7))" tested against zero, as canonical terms (helpers inlined)
+	tBit := newTB(nil)
+	tBit.small = map[ssa.Value]bool{}
+	var bitIdx, bitMask, bitBase string
+	okBit := false
+	for _, ret := range returnsOf(bit) {
+		bt, ok := bitTestOf(tBit, ret.Results[0])
+		if !ok || (okBit && (bt.idx != bitIdx || bt.mask != bitMask)) {
+			okBit = false
+			break
+		}
+		okBit, bitIdx, bitMask, bitBase = true, bt.idx, bt.mask, bt.base
+	}
+	wantMask := func(i string) []string {
+		return []string{"(<< 1 (& 7 conv<uint>(" + i + ")))", "(<< 1 (& 7 " + i + "))", "(<< 1 conv<uint>((& 7 " + i + ")))"}
+	}
+	a.check(okBit && bitIdx == "(/ index 8)", rule, "byte@Bit", w.pos(bit.Pos()), "bit i lives in byte i/8", fmt.Sprintf("Bit addresses byte %q (recognised: %v); expected index/8", bitIdx, okBit))
+	a.check(okBit && has(wantMask("index"), bitMask), rule, "mask@Bit", w.pos(bit.Pos()), "mask 1<<(index&7), least significant bit first: "+bitMask,
+		fmt.Sprintf("Bit uses mask %q; MySQL bitmaps are least-significant-bit first: 1<<(index&7)", bitMask))
+	// Set: every store into the bitmap storage is data[index/8] = data[index/8] | mask when value, &^ mask when !value
+	tSet := newTB(nil)
+	nSet, nClr := 0, 0
+	var badSet []string
+	instrs(set, func(in ssa.Instruction) {
+		st, ok := in.(*ssa.Store)
+		if !ok {
+			return
+		}
+		ia, ok := st.Addr.(*ssa.IndexAddr)
+		if !ok {
+			return
+		}
+		idx := tSet.term(ia.Index).String()
+		kind, mask := setOpOf(tSet, st.Val, ia)
+		sign, known := condSign(st.Block(), set.Params[2])
+		switch {
+		case idx != "(/ index 8)":
+			badSet = append(badSet, "byte "+idx)
+		case !has(wantMask("index"), mask):
+			badSet = append(badSet, "mask "+mask)
+		case kind == "or" && known && sign:
+			nSet++
+		case kind == "andnot" && known && !sign:
+			nClr++
+		default:
+			badSet = append(badSet, fmt.Sprintf("%s under value=%v(known %v)", kind, sign, known))
+		}
+	})
+	a.check(len(badSet) == 0 && nSet >= 1 && nClr >= 1, rule, "store@Set", w.pos(set.Pos()), "Set ors the bit in when value, clears it otherwise, same byte and mask as Bit",
+		fmt.Sprintf("Set does not set/clear exactly the bit that Bit reads (%v; set sites %d, clear sites %d)", badSet, nSet, nClr))
 	// BitCount counts exactly the bits 0..count-1 (padding bits of the last byte may be set by the master and must not count)
 	bc := w.method(w.Repl, "Bitmap", "BitCount")
 	if a.need(bc != nil, rule, "Bitmap.BitCount") {
@@ -504,55 +563,193 @@ func c09R5(a *A) {
 				hdr = b
 			}
 		}
-		okBound, okBit, okAcc := false, false, false
+		okBound, okTest, okAcc := false, false, false
 		var idx ssa.Value
 		if hdr != nil {
 			if iff, ok := lastInstr(hdr).(*ssa.If); ok {
 				if bo, ok := iff.Cond.(*ssa.BinOp); ok && bo.Op == token.LSS {
 					idx = bo.X
-					okBound = strings.HasSuffix(fieldPath(bo.Y), "count")
-				}
-			}
-			instrs(bc, func(in ssa.Instruction) {
-				if c, ok := isBitCall(valueOf(in)); ok && len(c.Common().Args) == 2 && c.Common().Args[1] == idx && c.Common().Args[0] == ssa.Value(bc.Params[0]) {
-					okBit = true
-					// the accumulator grows by one exactly on the true edge of this test
-					for _, b := range bc.Blocks {
-						if iff, ok := lastInstr(b).(*ssa.If); ok && iff.Cond == ssa.Value(c) {
-							for _, in2 := range b.Succs[0].Instrs {
-								if bo, ok := in2.(*ssa.BinOp); ok && bo.Op == token.ADD {
-									if k, ok := constInt(bo.Y); ok && k == 1 {
-										okAcc = true
-									}
+					tb0 := newTB(nil)
+					okBound = strings.HasSuffix(tb0.term(bo.Y).String(), ".count)") || strings.HasSuffix(fieldPath(bo.Y), "count")
+					// the counter starts at 0 and steps by 1
+					if phi, ok := idx.(*ssa.Phi); ok && phi.Block() == hdr {
+						for _, e := range phi.Edges {
+							if k, isC := constInt(e); isC && k == 0 {
+								continue
+							}
+							if inc, isB := e.(*ssa.BinOp); isB && inc.Op == token.ADD && inc.X == ssa.Value(phi) {
+								if k, isC := constInt(inc.Y); isC && k == 1 {
+									continue
 								}
 							}
+							okBound = false
+						}
+					} else {
+						okBound = false
+					}
+				}
+			}
+			tc := newTB(nil)
+			tc.small = map[ssa.Value]bool{}
+			if idx != nil {
+				tc.names[idx] = "i"
+				tc.small[idx] = true
+			}
+			// Bit's own test with index := i, i a non-negative counter
+			tb2 := newTB(nil)
+			tb2.small = map[ssa.Value]bool{bit.Params[1]: true}
+			tb2.names[bit.Params[1]] = "i"
+			var refIdx, refMask string
+			for _, ret := range returnsOf(bit) {
+				if bt, ok := bitTestOf(tb2, ret.Results[0]); ok {
+					refIdx, refMask = bt.idx, bt.mask
+				}
+			}
+			for _, b := range bc.Blocks {
+				iff, ok := lastInstr(b).(*ssa.If)
+				if !ok || b == hdr {
+					continue
+				}
+				match := false
+				if c, ok := isBitCall(iff.Cond); ok && len(c.Common().Args) == 2 && c.Common().Args[1] == idx && c.Common().Args[0] == ssa.Value(bc.Params[0]) {
+					match = true
+				} else if bt, ok := bitTestOf(tc, iff.Cond); ok && okBit && bt.idx == refIdx && bt.mask == refMask && bt.base == bitBase {
+					match = true
+				} else if ok {
+					a.info(rule, "bitcount-test", w.posOf(iff), "inline test %v vs Bit's %q %q %q", bt, bitBase, refIdx, refMask)
+				}
+				if !match {
+					continue
+				}
+				okTest = true
+				// the accumulator grows by one exactly on the true edge of this test
+				for _, in2 := range b.Succs[0].Instrs {
+					if bo, ok := in2.(*ssa.BinOp); ok && bo.Op == token.ADD {
+						if k, ok := constInt(bo.Y); ok && k == 1 {
+							okAcc = true
 						}
 					}
 				}
-			})
+			}
 		}
-		a.check(okBound && okBit && okAcc, rule, "count@BitCount", w.pos(bc.Pos()), "counts Bit(i) for i in [0,count)",
-			fmt.Sprintf("BitCount does not count exactly the bits below count (loop bounded by count: %v, tests Bit(i): %v, +1 per set bit: %v): padding bits of the last bitmap byte, which a master may set, are counted as present columns and every row's NULL bitmap is mis-sized", okBound, okBit, okAcc))
+		a.check(okBound && okTest && okAcc, rule, "count@BitCount", w.pos(bc.Pos()), "counts Bit(i) for i in [0,count)",
+			fmt.Sprintf("BitCount does not count exactly the bits below count (loop 0..count step 1: %v, tests bit i: %v, +1 per set bit: %v): padding bits of the last bitmap byte, which a master may set, are counted as present columns and every row's NULL bitmap is mis-sized", okBound, okTest, okAcc))
 	}
-	// Bit and Set: same byte, same mask
-	addr := func(f *ssa.Function) (string, string) {
-		t := newTB(nil)
-		idx, mask := "", ""
-		instrs(f, func(in ssa.Instruction) {
-			switch x := in.(type) {
-			case *ssa.IndexAddr:
-				idx = t.term(x.Index).String()
-			case *ssa.BinOp:
-				if x.Op.String() == "<<" {
-					mask = t.term(x).String()
+}
+
+type bitTest struct{ base, idx, mask string }
+
+// bitTestOf recognises "(conv)(S[idx] & mask) >0 / !=0" (either operand order) and "(S[idx] >> s) & 1 != 0 / == 1".
+func bitTestOf(t *tb, cond ssa.Value) (bitTest, bool) {
+	bo, ok := stripW(cond).(*ssa.BinOp)
+	if !ok {
+		return bitTest{}, false
+	}
+	var inner ssa.Value
+	kx, xc := constInt(bo.X)
+	ky, yc := constInt(bo.Y)
+	one := false
+	switch {
+	case (bo.Op == token.GTR || bo.Op == token.NEQ) && yc && ky == 0:
+		inner = bo.X
+	case (bo.Op == token.LSS || bo.Op == token.NEQ) && xc && kx == 0:
+		inner = bo.Y
+	case bo.Op == token.EQL && yc && ky == 1:
+		inner, one = bo.X, true
+	default:
+		return bitTest{}, false
+	}
+	and, ok := stripW(inner).(*ssa.BinOp)
+	if !ok || and.Op != token.AND {
+		return bitTest{}, false
+	}
+	for _, pair := range [][2]ssa.Value{{and.X, and.Y}, {and.Y, and.X}} {
+		ld, m := stripW(pair[0]), pair[1]
+		if sh, isSh := ld.(*ssa.BinOp); isSh && sh.Op == token.SHR {
+			if k, isC := constInt(m); isC && k == 1 {
+				if u, isL := stripW(sh.X).(*ssa.UnOp); isL && u.Op == token.MUL {
+					if ia, isIA := u.X.(*ssa.IndexAddr); isIA {
+						return bitTest{t.sliceTerm(ia.X), t.term(ia.Index).String(), "(<< 1 " + t.term(sh.Y).String() + ")"}, true
+					}
 				}
 			}
-		})
-		return idx, mask
+		}
+		if one {
+			continue
+		}
+		if u, isL := ld.(*ssa.UnOp); isL && u.Op == token.MUL {
+			if ia, isIA := u.X.(*ssa.IndexAddr); isIA {
+				return bitTest{t.sliceTerm(ia.X), t.term(ia.Index).String(), t.term(m).String()}, true
+			}
+		}
 	}
-	i1, m1 := addr(bit)
-	i2, m2 := addr(set)
-	a.check(i1 == i2 && i1 == "(/ index 8)", rule, "byte@Bit/Set", w.pos(bit.Pos()), "bit i lives in byte i/8", fmt.Sprintf("Bit addresses byte %q, Set byte %q; expected index/8", i1, i2))
-	a.check(m1 == m2 && strings.Contains(m1, "<< 1 ") && strings.Contains(m1, "7"), rule, "mask@Bit/Set", w.pos(bit.Pos()), "mask 1<<(index&7), least significant bit first: "+m1,
-		fmt.Sprintf("Bit uses mask %q, Set uses %q; MySQL bitmaps are least-significant-bit first: 1<<(index&7)", m1, m2))
+	return bitTest{}, false
 }
+
+// setOpOf classifies the value stored at ia: "or" (old | mask), "andnot" (old &^ mask, old & (0xff-mask), old & ^mask).
+func setOpOf(t *tb, v ssa.Value, ia *ssa.IndexAddr) (string, string) {
+	bo, ok := stripW(v).(*ssa.BinOp)
+	if !ok {
+		return "other", ""
+	}
+	isOld := func(x ssa.Value) bool {
+		u, ok := stripW(x).(*ssa.UnOp)
+		if !ok || u.Op != token.MUL {
+			return false
+		}
+		ia2, ok := u.X.(*ssa.IndexAddr)
+		return ok && (ia2 == ia || (t.sliceTerm(ia2.X) == t.sliceTerm(ia.X) && t.term(ia2.Index).String() == t.term(ia.Index).String()))
+	}
+	for _, pair := range [][2]ssa.Value{{bo.X, bo.Y}, {bo.Y, bo.X}} {
+		if !isOld(pair[0]) {
+			continue
+		}
+		m := stripW(pair[1])
+		switch bo.Op {
+		case token.OR:
+			return "or", t.term(m).String()
+		case token.AND_NOT:
+			if pair[0] == bo.X {
+				return "andnot", t.term(m).String()
+			}
+		case token.AND:
+			if sub, ok := m.(*ssa.BinOp); ok && sub.Op == token.SUB {
+				if k, isC := constInt(sub.X); isC && k == 255 {
+					return "andnot", t.term(sub.Y).String()
+				}
+			}
+			if sub, ok := m.(*ssa.BinOp); ok && sub.Op == token.XOR {
+				if k, isC := constInt(sub.Y); isC && (k == -1 || k == 255) {
+					return "andnot", t.term(sub.X).String()
+				}
+			}
+			if u, ok := m.(*ssa.UnOp); ok && u.Op == token.XOR {
+				return "andnot", t.term(u.X).String()
+			}
+		}
+	}
+	return "other", ""
+}
+
+// condSign: is block b reachable only with boolean v true (true,true), only with v false (false,true), or either (_,false)?
+func condSign(b *ssa.BasicBlock, v ssa.Value) (bool, bool) {
+	for _, dc := range dominatingConds(b) {
+		if dc.Cond == v {
+			return dc.Val, true
+		}
+		if u, ok := dc.Cond.(*ssa.UnOp); ok && u.Op == token.NOT && u.X == v {
+			return !dc.Val, true
+		}
+	}
+	return false, false
+}
+
+func has(xs []string, s string) bool {
+	for _, x := range xs {
+		if x == s {
+			return true
+		}
+	}
+	return false
+}
+
